@@ -16,6 +16,34 @@ def run(ctx):
         cfgs += [["--leaf", "4096", "--conc", "1", "--crc", "--batch", "2"], ["--leaf", "64", "--conc", "20", "--batch", "3"]]
     jobs = mc.replay_jobs(ctx, beh, cfgs) + mc.replay_jobs(ctx, big, [["--leaf", "64", "--conc", "8"]], prefix="big")
     results = vlib.parallel(jobs, max_workers=8)
+    # diamond commits publish bundles too: a commit crashed at each of its writes (before / after), a commit whose
+    # index-file write fails (1 and exactly 1000 entries), commits listing with small pages - every store call
+    # validated by DiamondTrace.tla (a descriptor only after its file lists, ...)
+    import json
+    import os
+    tr = os.path.join(ctx.work, "commit.ndjson")
+    rs = os.path.join(ctx.work, "commit.json")
+    vlib.run_vh(ctx, ["diamond", "--out", tr, "--res", rs, "--work", ctx.sub("dia"), "--seed", str(ctx.seed),
+                      "--labels", "sequential,commit-crash-retry,commit-index-write-fault,commit-small-pages,split-crash-rerun"]
+                + (["--crc"] if ctx.seed % 2 else []), timeout=3000)
+    r = json.load(open(rs))
+    t = vlib.run_tlc(ctx, "DiamondTrace.tla", "DiamondTrace.cfg", workers=1, timeout=1200, extra_files={"trace.ndjson": tr})
+    if t["timed_out"] or t["position"] is None:
+        raise vlib.Infra("DiamondTrace did not run:\n" + t["out"][-2000:])
+    pos, total = t["position"]
+    if pos != total + 1:
+        lines = open(tr).read().splitlines()
+        scen = "?"
+        for ln in lines[:pos][::-1]:
+            if '"op":"reset"' in ln:
+                scen = json.loads(ln)["scenario"]
+                break
+        ev = json.loads(lines[pos - 1]) if pos - 1 < len(lines) else {}
+        vlib.judge(ctx, [dict(sig="commit/trace-rejected/%s/%s-%s" % (scen, ev.get("op"), ev.get("kind", ev.get("role", ""))), op="trace",
+                              step=pos, detail="store call of a diamond commit not allowed by DiamondTrace.tla in scenario " + scen,
+                              got=lines[max(0, pos - 15):pos])])
+    ctx.traces_validated += r["behaviours"]
+    ctx.notes["diamond_commit_scenarios_validated"] = r["behaviours"]
     return mc.finish(ctx, results,
                      "behaviour = random walk over uploads, uploads crashed before/after each metadata write (no index "
                      "file / j index files / everything but the descriptor / descriptor landed), labels, bundle deletes; "
